@@ -704,6 +704,13 @@ std::vector<int> dexps(bool thorough)
 void run_dtable(bool thorough, long nrandom, uint64_t seed)
 {
     auto pats = mant_patterns(52);
+    if (thorough) { // every exponent, a third of the mantissa patterns (rotating with the exponent)
+        std::vector<uint64_t> thin;
+        for (size_t i = 0; i < pats.size(); ++i) {
+            if (i < 3 || i + 4 >= pats.size() || i % 3 == 0) { thin.push_back(pats[i]); }
+        }
+        pats = thin;
+    }
     long n    = 0;
     for (int e : dexps(thorough)) {
         for (uint64_t s = 0; s < 2; ++s) {
